@@ -31,7 +31,7 @@ const watchRoot = "/tmp/cdi-verif-watch"
 
 // file-system operations of a history (each applies to the single configured directory D)
 var watchOps = []string{"writeInPlace", "writeViaTemp", "rewrite", "unlink", "renameAway", "moveIn", "linkIn", "creatEmpty",
-	"tempFile", "rmdir", "mkdir", "lock", "unlock", "pause"}
+	"tempFile", "rmdir", "mkdir", "lock", "unlock", "pause", "moveInOld", "linkInOld"}
 
 func specBytes(tag string, n int) []byte {
 	s := &specs.Spec{Version: specs.CurrentVersion, Kind: "vendor.com/class"}
@@ -49,7 +49,7 @@ func (watchStream) Generate(rng *rand.Rand, tier string, emit func(Case)) {
 	}
 	// fixed histories: the two defects found on the pinned tree, and the basic ones
 	fixed := [][]string{
-		{"moveIn"}, {"linkIn"}, {"writeViaTemp"}, {"writeInPlace", "rewrite", "unlink"},
+		{"moveIn"}, {"linkIn"}, {"writeViaTemp"}, {"moveInOld"}, {"linkInOld"}, {"writeInPlace", "pause", "moveInOld"}, {"writeInPlace", "pause", "unlink", "pause", "linkInOld"}, {"writeInPlace", "rewrite", "unlink"},
 		{"lock", "rmdir", "mkdir", "writeInPlace", "unlock", "pause", "rmdir"},
 		{"rmdir", "pause", "mkdir", "moveIn"}, {"writeInPlace", "rmdir", "mkdir", "writeViaTemp"},
 		{"rmdir", "mkdir", "pause", "writeInPlace", "pause", "rmdir", "mkdir"},
@@ -157,6 +157,19 @@ func doFsOp(op, d, outside string, counter *int) bool {
 		src := filepath.Join(outside, "ln-"+tag)
 		_ = os.WriteFile(src, specBytes(tag, 1+*counter%3), 0o644)
 		return os.Link(src, target) == nil
+	case "moveInOld", "linkInOld":
+		// a file prepared long ago (old modification time) enters the directory
+		if !dirExists() || (op == "linkInOld" && fileExists()) {
+			return false
+		}
+		src := filepath.Join(outside, "old-"+tag)
+		_ = os.WriteFile(src, specBytes(tag, 1+*counter%3), 0o644)
+		old := time.Now().Add(-time.Duration(1+*counter%48) * time.Hour)
+		_ = os.Chtimes(src, old, old)
+		if op == "linkInOld" {
+			return os.Link(src, target) == nil
+		}
+		return os.Rename(src, target) == nil
 	case "creatEmpty":
 		if !dirExists() || fileExists() {
 			return false
